@@ -17,9 +17,9 @@ NOTE = ("Trusted base: the environment model of DESIGN.md section 3 (injective h
 CHECKS = {
     # id: (design_ref, technique, extra level text)
     "C01": ("5/C01", "symbolic execution (symx) of TorrentFile/Hasher/filelist_total vs BEP 3 reference; z3",
-            "sizes, listing order and (hasher jobs) the piece length are solver variables"),
+            "sizes, listing order, zero-tail offsets and (hasher jobs) the piece length are solver variables; trees, names, path spellings, routes, progress modes and histories are covered by a pairwise configuration matrix"),
     "C02": ("5/C02", "symbolic execution (symx) of the four v2/hybrid creators and all v2 hashers vs two BEP 52 reference formulations; z3",
-            "file sizes and listing order are solver variables; piece length is a configuration"),
+            "file sizes, zero-tail offsets and listing order are solver variables; piece length and the other request dimensions are configurations (pairwise matrix)"),
     "C03": ("5/C03", "symbolic execution (symx) of both hybrid creators; v1 view vs v2 view vs BEP 3 reference of the listed stream; z3",
             "file sizes and listing order are solver variables"),
     "C06": ("5/C06", "symbolic execution (symx) of all creators + MetaFile.sort_meta/write + edit_torrent; canonical-order and structure obligations on the object handed to pyben.dump; digest byte order as symbolic ranks; z3",
@@ -32,9 +32,9 @@ CHECKS = {
             "file sizes before and after each change are solver variables; operations and change kinds are configurations"),
     "C10": ("5/C10", "symbolic execution (symx): pairwise equality of creators' metafiles and of all hashers' outputs on the same symbolic payload; z3",
             "file sizes and listing order are solver variables"),
-    "C04": ("5/C04-C05-C16", "symbolic execution (symx) of Checker/FeedChecker/HashChecker/FileHasher on symbolic sizes and damage positions; z3 decides 'result < 100'",
+    "C04": ("5/C04-C05-C16", "symbolic execution (symx) of Checker/FeedChecker/HashChecker/FileHasher on symbolic sizes and damage positions; z3 decides 'result < 100'; QF_FP lemma per float expression shape",
             "file sizes, truncation lengths and flip offsets are solver variables; damage kind per file is a configuration; needs A-hash/A-generic"),
-    "C05": ("5/C04-C05-C16", "symbolic execution (symx) of Checker.find_root/check_paths/FeedChecker/HashChecker on reference-encoder and own-creator metafiles; z3 + QF_FP lemma L-pct",
+    "C05": ("5/C04-C05-C16", "symbolic execution (symx) of Checker.find_root/check_paths/FeedChecker/HashChecker on reference-encoder and own-creator metafiles; z3 + QF_FP lemmas (L-pct and one per float expression shape that produced a judged result)",
             "file sizes are solver variables; both content-path choices; float rounding closed by a bit-precise z3 lemma"),
     "C16": ("5/C04-C05-C16", "symbolic execution (symx) of the recheck iterators vs a reference piece table; percentage compared as exact rational; z3",
             "file sizes, truncation lengths and flip offsets are solver variables"),
@@ -43,7 +43,7 @@ CHECKS = {
     "C12": ("5/C12", "symbolic execution (symx) of normalize_piece_length/get_piece_length/MetaFile.__init__ over a symbolic integer (|x|<2^64 and up to 2^1100) and symbolic character-class strings; z3 LIA + bit decomposition + QF_FP lemmas",
             "the argument (integer, or string of <= 8 symbolic character classes) and the payload sizes are solver variables; floats havoc'd and confirmed by replay"),
     "C17": ("5/C17", "symbolic execution (symx) of edit_torrent on the fault-injecting abstract filesystem: crash/error at a symbolic operation index; z3",
-            "the fault's operation index and the short-write length are solver variables; fault kind and request are configurations"),
+            "the fault's operation index, short-write lengths and encoded lengths are solver variables; user-space buffering of writes of unknown length is forked; fault kind, request and history (edit after a killed edit) are configurations"),
     "C18": ("5/C18", "symbolic execution (symx) of cli.execute -> commands.info/recheck/magnet/create/rename on the abstract filesystem with mutation log (closed-world import guard); final-state and log obligations; z3",
             "file sizes and damage positions are solver variables, so the log is judged on every iterator path; argument vectors are configurations"),
     "C13": ("5/C13-C14", "symbolic execution (symx) of Assembler/Metadata/PieceNode/_index_contents/copypath/HasherV2 on a writable abstract filesystem: symbolic sizes and listing orders, decoys; final-state obligations; z3",
